@@ -278,6 +278,47 @@ theorem marker_lookalikes_untouched (skip : Bool) :
       (0, ([88] ++ magic.drop 1 |>.take 5 |> (· ++ [32, 55, 10]))) := by
   cases skip <;> decide
 
+/-! ### a host that is given up on (property C07's outcomes: command timeout, poll/read failure) -/
+
+/-- WHAT C05 MEANS FOR AN ABANDONED STREAM: EVERYTHING READ SO FAR IS RELAYED, INCLUDING AN
+    UNTERMINATED TAIL; NOTHING ELSE.  `script` = the arrivals the poll loop handled before the worker
+    left it -- at ANY point: every command-timeout instant, poll error or scheduling of C07 is some
+    such script -- then `result = DSH_FAILED; rcmd_signal (SIGTERM); break` and `_flush_output`.
+    There is a prefix `x` of the bytes the remote side had written (`x ++ rest`, `rest` = still in
+    the descriptor, never read) such that what pdsh writes for the host is exactly the labelled
+    `x`: its complete lines, then its unterminated rest under the label -- no byte of `x` lost,
+    none of `rest` invented.  (Index-level relay, stream in the domain.) -/
+theorem abandoned_stream_relays_what_was_read (cfg : Cfg) (host t0host : Bytes) (strm : Nat) (readRc : Bool)
+    {sizeMeta : Nat} (hm1 : 1 ≤ sizeMeta) (hm2 : sizeMeta ≤ 800) {a0 : Cbuf.Cbuf}
+    (ha0 : mkIndexBuf sizeMeta = some a0) (script : List Bytes)
+    (hdom : Spec.Dom05 (markerOf readRc) script.flatten = true) :
+    ∃ x rest : Bytes, x ++ rest = script.flatten ∧
+      written (runAbandoned indexOps cfg host t0host strm readRc a0 script).ems =
+        Spec.render (labelPrefix cfg.labels cfg.keep host) x ∧
+      (cfg.tailSplit = false →
+        Spec.c06Ok (labelPrefix cfg.labels cfg.keep host) x
+          ((runAbandoned indexOps cfg host t0host strm readRc a0 script).ems.map Em.bytes) = true) := by
+  obtain ⟨b0, hb0⟩ := mkFifoBuf_some sizeMeta
+  obtain ⟨x, rest, hx, hems, h0⟩ := runAbandoned_closed cfg host strm readRc t0host hm1 hm2 hb0 script hdom
+  rw [runAbandoned_sim idx_sim cfg host t0host strm readRc a0 b0 (idxRel_init (by omega) ha0 hb0) script]
+  have h0t : ∀ b ∈ Spec.tail x, b ≠ 0 := fun b hb => h0 b (mem_of_mem_rest hb)
+  obtain ⟨ht, _⟩ := tailEms_flatten cfg host strm _ (Spec.tail x) (Nat.lt_succ_self _) h0t
+  refine ⟨x, rest, hx, ?_, ?_⟩
+  · unfold written
+    rw [hems, List.map_append, List.flatten_append, ht]
+    unfold Spec.render
+    congr 1
+    simp only [List.map_map, List.flatMap]
+    rfl
+  · intro hfix
+    have hto := tailEms_ok cfg host strm hfix _ (Spec.tail x) (Nat.lt_succ_self _) h0t
+    have hlen : ((Spec.lines x).map
+        (Em.bytes ∘ fun l => (⟨strm, labelPrefix cfg.labels cfg.keep host ++ l⟩ : Em))).length =
+        (Spec.lines x).length := by simp
+    rw [hems, List.map_append, List.map_map]
+    simp only [Spec.c06Ok, List.take_left' hlen, List.drop_left' hlen, Bool.and_eq_true, beq_iff_eq]
+    exact ⟨rfl, hto⟩
+
 /-! ### outside the domain: what the code does with lines over 128 KiB and with NUL bytes
 
   Not violations of C05 (its text restricts the claim to "text output free of NUL bytes whose
